@@ -68,11 +68,52 @@ class C03(Check):
                 if sp:
                     c['spell'] = sp
             cases.append(c)
+        # specifications with named sub-specifications: a sub-specification is referenced from a specification with a larger
+        # horizon (its pastified form needs an extra delay there), possibly twice with different remaining horizons
+        from harness.modular import gen_modular
+        X, Y = ('pred', 'geq', ('var', 0), ('const', 1)), ('pred', 'leq', ('var', 1), ('const', 2))
+        crafted = []
+        for (sub, mainf) in [(('evt', 0, 2, X), lambda r: ('and', r, ('alwt', 0, 3, Y))), (('next', X), lambda r: ('or', r, ('evt', 1, 3, Y))),
+                             (('alwt', 0, 1, X), lambda r: ('and', ('evt', 0, 2, r), ('implies', r, ('evt', 2, 4, Y)))),
+                             (('untilt', 0, 1, X, Y), lambda r: ('and', r, ('next', ('next', ('next', Y))))), (('oncet', 0, 2, X), lambda r: ('or', r, ('evt', 1, 2, r)))]:
+            for _ in range(2):
+                n = rng.choice([6, 9, 14])
+                f = mainf(sub)
+                crafted.append({'f': f, 'n': n, 'nv': 2, 'cols': fml.gen_trace(rng, 2, n), 'times': list(range(n)), 'fe': 'stl',
+                                'subs': [['sp1', sub, sub]], 'main': mainf(('ref', 'sp1')), 'consts': [], 'style': rng.choice(['add_sub_spec', 'one_text'])})
+        mods = [c for c in gen_modular(rng, tier, 80, 1200, gen_kwargs={'unbounded_future': False}, base=False)
+                if fml.has_future(c['f']) and not any(x[0] in fml.UNB_FUTURE for x in fml.subformulas(c['f'])) and 'units' not in c]
+        for c in crafted + mods:
+            c['fe'] = 'stl'
+            cases.append(c)
         return cases
 
     def normalize(self, c):
         if 'spell' in c and fml.to_sx(c['f']) != c['spell'].get('fkey'):
             c = {k: v for k, v in c.items() if k != 'spell'}
+        if c.get('subs'):
+            # a shrunk formula no longer matches its decomposition: fall back to the plain (inlined) specification
+            from harness import shrink
+            defs = {nm: shrink.detuple(s_) for nm, b, s_ in c['subs']}
+
+            def inline(f):
+                if f[0] == 'ref':
+                    return defs.get(f[1], f)
+                return fml.rebuild(f, [inline(x) for x in fml.children(f)])
+            try:
+                same = fml.to_sx(inline(shrink.detuple(c['main']))) == fml.to_sx(c['f'])
+            except Exception:
+                same = False
+            if not same:
+                c = {k: v for k, v in c.items() if k not in ('subs', 'main', 'consts', 'style')}
+        return c
+
+    def load_case(self, c):
+        c = Check.load_case(self, c)
+        if c.get('subs'):
+            from harness import shrink
+            c['main'] = shrink.detuple(c['main'])
+            c['subs'] = [[nm, shrink.detuple(b), shrink.detuple(s_)] for nm, b, s_ in c['subs']]
         return c
 
     def model_lines(self, c):
@@ -80,6 +121,9 @@ class C03(Check):
 
     def impl_cases(self, c):
         case = online_case(c['f'], c['cols'], c['times'], c['nv'], pastify=True, **c.get('spell', {}))
+        if c.get('subs'):
+            from harness.modular import modular_spec
+            case.update(modular_spec(c))
         if c.get('fe') == 'ltl':
             case['monitor'] = 'ltl-discrete'
         case['calls'] = case['calls'] + [['print']]
@@ -135,10 +179,14 @@ class C03(Check):
         return c.get('_h', 0) >= 1 and c['n'] > c.get('_h', 0)
 
     def key(self, c):
-        return json.dumps([fml.to_sx(c['f']), c['cols'], c.get('fe')])
+        return json.dumps([fml.to_sx(c['f']), c['cols'], c.get('fe'), c.get('subs'), c.get('main')], default=str)
 
     def describe(self, c):
-        return {'spec': 'out = ' + fml.to_text(c['f']), 'front_end': c.get('fe', 'stl'), 'data': c['cols']}
+        d = {'spec': 'out = ' + fml.to_text(c['f']), 'front_end': c.get('fe', 'stl'), 'data': c['cols']}
+        if c.get('subs'):
+            from harness.modular import modular_spec
+            d['modular'] = modular_spec(c)
+        return d
 
 
 def main(tier, seed, replay=None):
